@@ -17,6 +17,27 @@ def register(add):
                  E('bn_is_zero', 'a'), E('ep_is_infty', 'a'), E('bn_bits', 'a'), E('ep_curve_get_ord', 'a'), E('bn_mod_basic', 'a'), E('bn_abs', 'a'), E('bn_add', 'a')],
         note='group-level event monitor; callees abstract and trusted to be constant-time as units; pre: k != 0, p != infinity',
         bound_note='all bit lengths 1..1024 of the group order: the ladder loop is closed by a loop contract')
+    R = lambda f: '%s/%s_rg' % (f, f)
+    ALLF = ['ep_mul_glv_imp', 'ep_mul_naf_imp', 'ep_mul_reg_glv', 'ep_mul_reg_imp', 'ep_mul_basic', 'ep_mul_slide', 'ep_mul_monty', 'ep_mul_lwnaf', 'ep_mul_lwreg', 'ep_mul_gen', 'ep_mul_dig']
+    CAL = [R('ep_tab'), R('bn_rec_reg'), R('ep_dbl_projc'), R('ep_add_projc'), R('ep_sub'), R('ep_neg'), R('ep_norm'), R('fp_copy_sec'), R('ep_set_infty'), R('fp_set_dig'),
+           R('bn_is_even'), R('bn_sign'), R('bn_bits'), R('ep_curve_get_ord'), R('bn_abs')]
+    reg = dict(sources=['src/ep/relic_ep_mul.c', 'src/bn/relic_bn_mem.c'], headers=['ct_reg.h', 'ct_reg_state.h'], conf='base', route='proof', unwind=40,
+               flags=['--object-bits', '10'], decls='ep_st *r, *p; bn_st *k;')
+    # the loop contracts are applied to the ENFORCED function only: applied to a callee of the enforced function, goto-instrument 6.11 infers
+    # loop assigns by inlining and needs > 17 GB (DESIGN P28); every other body of the file is removed for the same reason
+    add('ep_mul_reg_imp', ['C20'], 'ep_mul_reg_imp', defines=['VC_REG_IMP'], loops=True, timeout=900, call='ep_mul_reg_imp(r, p, k)', replace=CAL,
+        remove_bodies=[f for f in ALLF if f != 'ep_mul_reg_imp'],
+        note='group-level event monitor; callees abstract and trusted to be constant-time as units',
+        bound_note='all bit lengths 1..RLC_FP_BITS+1 of the group order: the digit loop and its two inner loops are closed by loop contracts', **reg)
+    add('ep_mul_reg_glv', ['C20'], 'ep_mul_reg_glv', defines=['VC_REG_GLV'], loops=True, timeout=900, call='ep_mul_reg_glv(r, p, k)', preunwind=6, arb_n=3, **dict(reg, flags=['--object-bits', '11']),
+        replace=CAL + [R('ep_psi'), R('dv_copy_sec'), R('bn_mod_basic'), R('bn_rec_glv'), R('ep_curve_get_v1'), R('ep_curve_get_v2')],
+        remove_bodies=[f for f in ALLF if f != 'ep_mul_reg_glv'],
+        note='group-level event monitor of the GLV form; callees abstract and trusted to be constant-time as units',
+        bound_note='all bit lengths 1..RLC_FP_BITS+1 of the group order: the digit loop and its two inner loops are closed by loop contracts')
+    add('ep_mul_lwreg', ['C20'], 'ep_mul_lwreg', timeout=600, call='ep_mul_lwreg(r, p, k)',
+        replace=['ep_mul_reg_imp', 'ep_mul_reg_glv', R('bn_is_zero'), R('ep_is_infty'), R('ep_curve_is_endom'), R('ep_set_infty')],
+        remove_bodies=[f for f in ALLF if f not in ('ep_mul_lwreg',)],
+        note='public entry over the contracts of the two workers; pre: k != 0, p != infinity; the worker is chosen by the curve (public)', bound_note='loop-free', **reg)
     X = lambda f: '%s/%s_x' % (f, f)
     add('bn_mxp_monty', ['C20'], 'bn_mxp_monty', sources=['src/bn/relic_bn_mxp.c', 'src/bn/relic_bn_mem.c'], headers=['ct_mxp.h', 'ct_mxp_state.h'],
         conf='base', route='proof', loops=True, unwind=40, flags=['--object-bits', '10'], timeout=900,
